@@ -884,8 +884,10 @@ ASSUMPTIONS = ['coordinates, constants and exponents are finite floats (taken as
                'DiscretizedSpace.tspace is a NumpyTensorSpace; float128/complex256 dtypes left out; MatrixWeighting dense only',
                'element(): inputs are elements, ndarrays, regular nested lists, scalars with exactly representable '
                'real values that survive conversion to the target dtype unchanged (integers for integer targets); '
-               'the order=/data_ptr=/cast=False options and callables are not modelled']
+               'data_ptr= and callables are probed only, not modelled']
 TRUSTED = ['harness/c20.py build/describe (descriptor <-> real object), checked against each other on every case',
+           'translate/c20_tables.py: fail-closed AST reader of every __eq__/__hash__/__contains__ (C20/EqTables.v and '
+           'C20/Tables.v prove the interpreted tables equal to the model for every object of each class)',
            'C20/Model.v eqt uses self-first argument order in the nested membership tests of SetUnion/SetIntersection '
            '(immaterial because eqt is proved symmetric)']
 
@@ -2116,10 +2118,12 @@ LEVEL_TEXT = ('Proof: over descriptors of all constructible sets, fields, interv
               'are always valid indices; pspace[slice]/pspace[int] are exactly the selected components; loss of product / '
               'integer-target weightings in the current code is refuted by witnesses. Element indexing vs arrays, byaxis '
               'theorems, element(order=, cast=False) are validated only (probes + correspondence).')
-LEVEL_NOTE = ('Trusted: the hand transcription of __eq__/__contains__/astype/__getitem__ (tied by the in-Coq correspondence on '
+LEVEL_NOTE = ('Trusted: the semantics given to the regenerated __eq__/__hash__/__contains__ tables and the hand transcription '
+              'of astype/__getitem__/element/byaxis (both tied by the in-Coq correspondence on '
               '~1300 quick / ~7700 thorough structured cases incl. raise outcomes), the fail-closed AST reader of the __hash__ '
               'tuples, descriptor build/describe in the harness; real-number idealisation of floats (NaN, signed-zero bytes out '
-              'of scope; the grid hashes bytes after + 0.0). Axioms: classical reals + funext as printed. 11 open findings are '
-              'recorded in findings/C20.json; 7 have proposed diffs under which the check passes with the repaired variants.')
+              'of scope; the grid hashes bytes after + 0.0). Axioms: classical reals + funext as printed (+ primitive-float '
+              'specification for one lemma). 4 findings were fixed in /repo (live theorems are unconditional since), 10 remain '
+              'open in findings/C20.json.')
 TECHNIQUE = ('Coq proof by structural induction over a nested deep embedding of sets/spaces (three-valued equality outcome), '
              'source-regenerated hash and dtype tables, in-Coq differential correspondence with measured variant switches')
